@@ -215,8 +215,8 @@ def run(case, tape=None):
                         raise OracleFail('replicas-differ', dict(layout=n, ranks=[seen[k][0], r]))
                     seen.setdefault(k, (r, data))
         ops = [rec[6] for rec in w.log if rec[3] == 'coll']
-        ng = ops.count('Allgather')
-        na = ops.count('Alltoall')
+        ng = ops.count('Allgather') + ops.count('Allgatherv')
+        na = ops.count('Alltoall') + ops.count('Alltoallv')
         probes = {}
         if ng:
             probes['gather_steps'] = ng // max(1, P)
